@@ -715,7 +715,11 @@ def sym_char_width(ch):
         return SymInt(W(o.z))
     import wcwidth
 
-    return builtins.max(wcwidth.wcwidth(_chr(o) if _isinstance(o, builtins.int) else ch), 0)
+    real = builtins.max(wcwidth.wcwidth(_chr(o) if _isinstance(o, builtins.int) else ch), 0)
+    if Ctx.cur is not None and _isinstance(o, builtins.int):
+        # a concrete character has its real width; keep the abstract table consistent with it on this code point
+        Ctx.cur.add_axiom(W(o) == real)
+    return real
 
 
 # ------------------------------------------------------------------------------------------------------------
